@@ -76,6 +76,12 @@ func main() {
 		set, in = streams.C14(*seed, *n)
 	case "c15":
 		set, in = streams.C15(*seed, *n)
+	case "c15src":
+		set, in = streams.Src(*seed, *n, "pf_src15")
+		set.Stream = "c15src"
+	case "c07src":
+		set, in = streams.Src(*seed, *n, "pf_src07")
+		set.Stream = "c07src"
 	case "c16":
 		set, in = streams.C16(*seed, *n)
 	case "c17":
